@@ -13,7 +13,16 @@ RULE = ("strictly increasing grids (uniform from 0 / offset / jittered / strongl
 
 def generate(rng, tier):
     n = 120 if tier == "quick" else 900
-    return [F.gen_ft_case(rng, tier, channel=0, win="none") for _ in range(n)]
+    cases = [F.gen_ft_case(rng, tier, channel=0, win="none") for _ in range(n)]
+    for i, c in enumerate(cases):
+        if i % 12 == 5 and len(c["xin"]) >= 3:
+            # finite data whose uncertainty vector carries "unknown" flags (inf / NaN): the value is still the integral over every point
+            dy = [0.05 + 0.01 * (j % 5) for j in range(len(c["xin"]))]
+            dy[0] = float("inf") if i % 24 == 5 else float("nan")
+            dy[len(dy) // 2] = float("nan") if i % 24 == 5 else float("inf")
+            c["dy"] = dy
+            c["desc"]["dy"] = "nonfinite entries"
+    return cases
 
 
 run_impl = F.run_ft
